@@ -1,8 +1,12 @@
 package graph
 
 import (
+	"context"
 	"encoding/json"
 	"strings"
+
+	"github.com/vektah/gqlparser/v2"
+	"github.com/99designs/gqlgen/graphql"
 
 	"github.com/vektah/gqlparser/v2/ast"
 
@@ -72,4 +76,86 @@ func Harness_C16_disabled() {
 		zzsym.Assert(!strings.Contains(got.data, "User") && !strings.Contains(got.data, "Item") && !strings.Contains(got.data, "guard"),
 			"disabled: no type, field or directive name of the schema appears in the response")
 	}
+}
+
+func Setup_C16_configuredSchema() { probeSetup() }
+
+// Harness_C16_configuredSchema: the server is built with a configured
+// schema (Config.Schema) that is a reduced view of the compiled-in one (a
+// type and the field leading to it removed): __schema and __type(name:)
+// both describe the configured schema - the removed type is unknown to
+// both - and agree with each other on every type that remains.
+func Harness_C16_configuredSchema() {
+	full := NewExecutableSchema(Config{Resolvers: &resolverRoot{}}).Schema()
+	reduced := *full
+	reduced.Types = map[string]*ast.Definition{}
+	for n, d := range full.Types {
+		if n == "Box" {
+			continue
+		}
+		if n == "Query" {
+			q := *d
+			q.Fields = nil
+			for _, f := range d.Fields {
+				if f.Name != "box" {
+					q.Fields = append(q.Fields, f)
+				}
+			}
+			reduced.Types[n] = &q
+			reduced.Query = &q
+			continue
+		}
+		reduced.Types[n] = d
+	}
+	w := newWorld(0, false)
+	w.introspection = true
+	es := NewExecutableSchema(Config{Schema: &reduced, Resolvers: &resolverRoot{w}, Directives: DirectiveRoot{Guard: w.guardDirective, Mark: w.markDirective}})
+	name := []string{"Box", "User", "Query", "Shade", "Nope"}[zzsym.Choice("type", 5)]
+	aliased := zzsym.Choice("aliased", 2) == 1
+	q := `{ __type(name: "` + name + `") { name fields { name } } __schema { types { name } } }`
+	if aliased {
+		q = `query($n: String!) { t: __type(name: $n) { name fields { name } } s: __schema { types { name } } }`
+	}
+	doc, errs := gqlparser.LoadQuery(&reduced, q)
+	zzsym.Assert(errs == nil, "the introspection query is valid against the configured schema")
+	ex := newExecutorFor(es, w)
+	opCtx := opCtxFor(w, doc, map[string]any{"n": name})
+	rh, ctx2 := ex.DispatchOperation(graphql.StartOperationTrace(context.Background()), opCtx)
+	resp := rh(ctx2)
+	type typ struct {
+		Name   string
+		Fields []struct{ Name string }
+	}
+	type sch struct{ Types []struct{ Name string } }
+	var out struct {
+		Type   *typ `json:"__type"`
+		T      *typ `json:"t"`
+		Schema *sch `json:"__schema"`
+		S      *sch `json:"s"`
+	}
+	zzsym.Assert(len(resp.Errors) == 0 && json.Unmarshal(resp.Data, &out) == nil, "introspection answers without errors")
+	t, sc := out.Type, out.Schema
+	if aliased {
+		t, sc = out.T, out.S
+	}
+	_, inReduced := reduced.Types[name]
+	zzsym.Assert(sc != nil, "__schema is answered")
+	zzsym.Assert((t != nil) == inReduced, "__type knows exactly the types of the schema the server was configured with")
+	listed := false
+	hasBox := false
+	for _, x := range sc.Types {
+		if x.Name == name {
+			listed = true
+		}
+		if x.Name == "Box" {
+			hasBox = true
+		}
+	}
+	zzsym.Assert(listed == inReduced && !hasBox, "__schema lists exactly the types of the configured schema, like __type")
+	if t != nil && name == "Query" {
+		for _, f := range t.Fields {
+			zzsym.Assert(f.Name != "box", "__type describes the configured definition of a type, not the compiled-in one")
+		}
+	}
+	zzsym.Reach("c16.configured")
 }
